@@ -11,6 +11,7 @@ Helper lemmas and the inductive invariant are in Proofs/CoMutex*.lean.
 (`comutex_sections_ordered`), not this file.
 -/
 import YaclibModel.Proofs.CoMutexProgress
+import YaclibModel.Proofs.CoMutexExecInst
 import YaclibModel.Extracted.Kernels
 import YaclibModel.Model.Skeletons
 
@@ -313,6 +314,87 @@ example : ∃ s, Reachable ⟨false, false, prog2 [⟨.lock, .here⟩] [⟨.try_
   have h14 := validator_sound h13 (l := .exit 1) (s' := _) rfl
   have h15 := validator_sound h14 (l := .resubmit 1) (s' := _) rfl
   exact ⟨_, h15, rfl, rfl, rfl, rfl⟩
+
+/-! ### over a real executor (Proofs/CoMutexExec*.lean)
+
+The premise "the executors involved keep accepting work" made precise: the hand-over to a parked coroutine is a
+`Submit` at an executor `E` (an open transition system, Proofs/StrandTower.lean), its critical section is the body of
+that job (`call … ret`).  Safety holds over EVERY `E`; no lost wake-up holds over every `E` that honours the IExecutor
+contract (`ExecContract E`) and never Drops (a Dropped waiter would be completed with StopError while owning the mutex
+and never release it: that is exactly what the premise excludes). -/
+section OverExecutor
+open Yaclib.Strand (Exec ExecContract)
+variable {E : Exec} {x : XState E}
+
+theorem mutual_exclusion_over (h : XReach cfg E x) {c d : Cid} (hc : x.m.pc c = .cs) (hd : x.m.pc d = .cs) : c = d :=
+  mutual_exclusion (xmutex_projects h).1 hc hd
+
+theorem grant_once_over (h : XReach cfg E x) (c : Cid) :
+    x.m.arrivals.count c = x.m.granted.count c + (if x.m.pc c = .parked then 1 else 0) :=
+  grant_once (xmutex_projects h).1 c
+
+theorem fifo_grant_order_over (h : XReach cfg E x) (hf : cfg.fifo = true) :
+    x.m.granted ++ x.m.receiver ++ (senderList x.m).reverse = x.m.arrivals :=
+  fifo_grant_order (xmutex_projects h).1 hf
+
+/-- the mutex is a well-behaved client of its executor: it submits a job once and returns only from a body that was entered -/
+theorem executor_protocol_honoured (h : XReach cfg E x) : E.Run x.x x.p := (xmutex_projects h).2
+
+/-- no lost wake-up over every contract-honouring executor that keeps accepting work -/
+theorem quiescent_none_parked_over (hc : ExecContract E) (hnd : NeverDrops E) (h : XReach cfg E x)
+    (hq : ∀ x', ¬ XStep E x x') :
+    x.m.word = .notLocked ∧ x.m.receiver = [] ∧ x.m.own = .free ∧
+    ∀ c, x.m.pc c = .idle ∧ x.m.todo c = [] ∧ x.m.enters c + x.m.fails c = (cfg.prog c).length ∧
+         x.m.arrivals.count c = x.m.granted.count c :=
+  quiescent_none_parked (xmutex_projects h).1 (xmutex_quiescent hc hnd h hq)
+
+/-- … in particular over Inline, over a ManualExecutor that is drained, over the FairThreadPool (n ≥ 1 workers) and over
+    any tower of Strands on a contract-honouring base; for the last two "never Drops" (nobody stops the executor) stays a
+    hypothesis — the contract itself is discharged by `pool_contract` / `tower_satisfies_contract` -/
+theorem over_inline {x : XState (Yaclib.Strand.inlineExec true)} (h : XReach cfg _ x) (hq : ∀ x', ¬ XStep _ x x') :
+    QuiescentDone cfg x := comutex_over_inline h hq
+
+theorem over_manual {x : XState (Yaclib.Strand.manualExec false)} (h : XReach cfg _ x) (hq : ∀ x', ¬ XStep _ x x') :
+    QuiescentDone cfg x := comutex_over_manual h hq
+
+theorem over_pool {n : Nat} (hn : 0 < n) (stop : Option Yaclib.Pool.StopKind) (spur : Bool)
+    (hnd : NeverDrops (Yaclib.Pool.poolExec n stop spur)) {x : XState (Yaclib.Pool.poolExec n stop spur)}
+    (h : XReach cfg _ x) (hq : ∀ x', ¬ XStep _ x x') : QuiescentDone cfg x := comutex_over_pool hn stop spur hnd h hq
+
+theorem over_strand_tower {base : Exec} (hb : ExecContract base) (k : Nat) (hnd : NeverDrops (Yaclib.Strand.tower base k))
+    {x : XState (Yaclib.Strand.tower base k)} (h : XReach cfg _ x) (hq : ∀ x', ¬ XStep _ x x') : QuiescentDone cfg x :=
+  comutex_over_strand_tower hb k hnd h hq
+
+theorem xplain {s : XState E} (l : Label) {m' : State} (h : next s.m l = some m') (hs : synced s.job l = false) :
+    XStep E s { s with m := m' } := .plain (next_sound h) hs
+
+/-- non-vacuity: over the Inline executor coroutine 1 parks, the holder's release Submits it (job 0), Inline Calls the
+    job and coroutine 1 is inside its critical section, which is the body of that job -/
+example : ∃ x : XState (Yaclib.Strand.inlineExec true),
+    XReach ⟨false, false, prog2 [⟨.lock, .here⟩] [⟨.lock, .here⟩]⟩ (Yaclib.Strand.inlineExec true) x ∧
+    x.m.pc 1 = .cs ∧ x.job 1 = some 0 ∧ x.p 0 = .calling ∧ x.m.granted = [1] := by
+  let cfg : Cfg := ⟨false, false, prog2 [⟨.lock, .here⟩] [⟨.lock, .here⟩]⟩
+  have h0 : XReach cfg (Yaclib.Strand.inlineExec true) (xinit cfg (Yaclib.Strand.inlineExec true)) := .init
+  have h1 := XReach.step h0 (xplain (.tlLoad 0 true) rfl rfl)
+  have h2 := XReach.step h1 (xplain (.tlCas 0 true) rfl rfl)
+  have h3 := XReach.step h2 (xplain (.enter 0) rfl rfl)
+  have h4 := XReach.step h3 (xplain (.tlLoad 1 false) rfl rfl)
+  have h5 := XReach.step h4 (xplain (.alLoad 1 (.locked none)) rfl rfl)
+  have h6 := XReach.step h5 (xplain (.alCas 1 true) rfl rfl)
+  have h7 := XReach.step h6 (xplain (.exit 0) rfl rfl)
+  have h8 := XReach.step h7 (xplain (.ulLoad (.co 0) false) rfl rfl)
+  have h9 := XReach.step h8 (xplain (.ulXchg (.co 0)) rfl rfl)
+  have h10 := XReach.step h9 (XStep.grantSub (a := .co 0) (n := 1) (lx := Yaclib.Strand.XEv.sub 0)
+    (x' := Yaclib.Strand.upd Yaclib.Strand.protInit 0 .pending)
+    (next_sound (l := .grant (.co 0) 1 false) rfl)
+    (by exact ⟨rfl, rfl⟩) rfl rfl)
+  have h11 := XReach.step h10 (XStep.enterCall (n := 1) (j := 0) (lx := Yaclib.Strand.XEv.call 0)
+    (x' := Yaclib.Strand.upd (Yaclib.Strand.upd Yaclib.Strand.protInit 0 .pending) 0 .calling)
+    (next_sound (l := .enter 1) rfl) rfl
+    (by exact ⟨rfl, rfl, rfl⟩) rfl)
+  exact ⟨_, h11, rfl, rfl, rfl, rfl⟩
+
+end OverExecutor
 
 end Yaclib.Props.C14
 
